@@ -3,6 +3,7 @@ import DoltVerif.Lemmas.NbsFindOffsets
 import DoltVerif.Lemmas.NbsArc
 import DoltVerif.Lemmas.NbsStore
 import DoltVerif.Lemmas.NbsGetMany
+import DoltVerif.Lemmas.NbsJStore
 /-!
 C01 — Chunk reads return exactly the bytes stored under that address.
 
@@ -166,6 +167,48 @@ theorem generational_reads_agree (g : Gen) :
     (∀ as, g.hasMany as = as.filter (fun a => (g.abs a).isNone)) :=
   ⟨gen_get_eq_abs g, gen_has_eq_abs g, gen_hasMany_spec g⟩
 
+/-! ### Journal store: the range index inside the store model -/
+
+open DoltVerif.NbsStore in
+/-- a journaling store (memtable → journal source with novel map + addr16 cache → table files) over
+every history of put / commit (persist into the journal, de-duplicated) / flatten: for a queried
+address `a` **that no written address aliases on its first 16 bytes**, `Get` returns only bytes written
+under `a`, is defined iff `a` was written, `Has` is its domain and `HasMany` the complement of `Has`. -/
+theorem jstore_reads_agree_partial (ops : List JOp) (a : Addr)
+    (hno : ∀ x ∈ jwritten ops, x.1.a16 = a.a16 → x.1 = a) :
+    (((jrun ops).get a).isSome ↔ a ∈ (jwritten ops).map (·.1)) ∧
+    (∀ d, (jrun ops).get a = some d → (a, d) ∈ jwritten ops) ∧
+    ((jrun ops).has a = ((jrun ops).get a).isSome) ∧
+    (∀ as, (jrun ops).hasMany as = as.filter (fun x => !(jrun ops).has x)) := by
+  refine ⟨⟨?_, jstore_get_complete ops a⟩, jstore_get_sound ops a hno, jstore_has_eq _ a, jstore_hasMany_eq _⟩
+  intro h
+  obtain ⟨d, hd⟩ := Option.isSome_iff_exists.mp h
+  exact List.mem_map.mpr ⟨(a, d), jstore_get_sound ops a hno d hd, rfl⟩
+
+/-- the unrestricted statement … -/
+def jstore_reads_agree_full : Prop :=
+  ∀ (ops : List NbsStore.JOp) (a : Addr), ((NbsStore.jrun ops).get a).isSome → a ∈ (NbsStore.jwritten ops).map (·.1)
+
+/-- … is false at store level too (known finding `journal-addr16-alias`): write one chunk, commit,
+flatten; an address differing only in its last 4 bytes is then present and readable. -/
+theorem jstore_reads_agree_full_false : ¬ jstore_reads_agree_full := by
+  intro h
+  have := h [.put ⟨1, 5 * 4294967296 + 1⟩ [7], .commit, .flatten] ⟨1, 5 * 4294967296 + 2⟩
+  revert this
+  decide
+
+/-- full iteration of the journal source reports only written chunks … -/
+def jstore_iterate_full : Prop :=
+  ∀ (ops : List NbsStore.JOp) (p : Addr × NbsStore.Bytes), p ∈ (NbsStore.jrun ops).j.iterate → p ∈ NbsStore.jwritten ops
+
+/-- … is false after a flatten (known finding `journal-addr16-iterate`): the chunk is reported under
+its first 16 address bytes followed by zeros. -/
+theorem jstore_iterate_full_false : ¬ jstore_iterate_full := by
+  intro h
+  have := h [.put ⟨1, 5 * 4294967296 + 1⟩ [7], .commit, .flatten] (⟨1, 5 * 4294967296⟩, [7])
+  revert this
+  decide
+
 /-! ### Journal range index -/
 
 /-- a journal history, newest operation first -/
@@ -263,6 +306,9 @@ example : [(⟨⟨5, 11⟩, false⟩ : HasRec), ⟨⟨5, 13⟩, false⟩, ⟨⟨
 #guard lookup exIdx ⟨5, 12⟩ == some (some (4, 6)) && lookup exIdx ⟨5, 11⟩ == some (some (0, 4))
 #guard hasMany exIdx [⟨⟨5, 12⟩, false⟩, ⟨⟨5, 13⟩, false⟩, ⟨⟨9, 11⟩, false⟩, ⟨⟨10, 0⟩, false⟩, ⟨⟨11, 0⟩, true⟩]
     == some ([⟨⟨5, 12⟩, true⟩, ⟨⟨5, 13⟩, false⟩, ⟨⟨9, 11⟩, true⟩, ⟨⟨10, 0⟩, false⟩, ⟨⟨11, 0⟩, true⟩], true)
+
+example : ∀ x ∈ NbsStore.jwritten [.put ⟨1, 7⟩ [1], .commit, .flatten, .put ⟨2, 9⟩ [2]], x.1.a16 = (⟨2, 9⟩ : Addr).a16 → x.1 = ⟨2, 9⟩ := by
+  decide
 
 example : (jrun [.put ⟨1, 7⟩ (0, 3), .flatten, .put ⟨2, 9⟩ (5, 4)]).get ⟨2, 9⟩ = some (5, 4) := by decide
 
